@@ -374,6 +374,14 @@ pub fn supervise(check: &str, tier: &str) -> i32 {
     let wall = t0.elapsed().as_secs_f64();
     let replay_dir = verif_dir().join("replays");
     let _ = std::fs::create_dir_all(&replay_dir);
+    // replay files of earlier runs of this check are stale
+    if let Ok(rd) = std::fs::read_dir(&replay_dir) {
+        for e in rd.flatten() {
+            if e.file_name().to_string_lossy().starts_with(&format!("{}-", check)) {
+                let _ = std::fs::remove_file(e.path());
+            }
+        }
+    }
     let mut lines: Vec<String> = Vec::new();
     for (id, (count, run, res)) in &known_hits {
         let k = known.iter().find(|k| &k.id == id).unwrap();
